@@ -9,15 +9,18 @@ keys and values are numbers (key = feature*8 + tag index); a world is `{k=v,k=v}
 `[wid:{…} wid:{…}]` sorted by world ID.
   base {k=v,…}           => {k=v,…}
   worlds [wid:{…} …]     => [wid:{…} …]          (the view the next round starts from)
-  round [req …]          => [wid:{…} …] | hang | race | crash | fatal
+  round [req …]          => [wid:{…} …] ## resp … | hang | race | crash | fatal
+                            (resp per request: `e` error · `i<f.f>` modified features · `n<k>` query count ·
+                             `w<id.id>` / `wd` list-worlds · `-` delete-world)
+  round-addworld [req …] => the same; `a<wid>t<target>(rules)` = add-world-with-change (outside the model)
 requests: `q<wid>` evaluate (non-change) · `d<wid>` delete-world · `l` list-worlds ·
           `c<wid>(rule;rule;…)` evaluate to a change, rule = [`<k>?` present | `<k>!` absent] (`+k=v` | `-k` | `~k`);
           `~k` is an element that FAILS when applied (add-tag / remove-tag on a missing feature, an invalid
           feature): `Apply` stops there with an error, what was applied before stays (a merged change with a
           failing part applies nothing and is written with the failing rule first)
 
-All requests of a round are issued concurrently.  Predicate: the final view equals `serialRun` of the
-requests in SOME order (`serializable`), and the round ends (`no-deadlock`), without a crash or a data race
+All requests of a round are issued concurrently.  Predicate: ONE serial order explains the final view and the
+response of every request (`serialRunResp`; `serializable` / `serializable-responses`), and the round ends (`no-deadlock`), without a crash or a data race
 report.  A non-serial outcome of a round that is not `conflictFree` (some request's change reads a key that
 another request of the round writes in the same world — exactly the hypothesis `serializable_blind` needs) and
 that the lock-protocol model can produce is the documented class `write-skew`.
@@ -101,6 +104,22 @@ def perms {α} : List α → List (List α)
   | [] => [[]]
   | x :: xs => (perms xs).flatMap (insertAll x)
 
+def renderResp : Resp → String
+  | .nothing => "-"
+  | .err => "e"
+  | .ids fs => "i" ++ ".".intercalate (fs.map toString)
+  | .count n => "n" ++ toString n
+  | .worlds [] => "wd"
+  | .worlds ws => "w" ++ ".".intercalate ((ws.mergeSort (· ≤ ·)).map toString)
+
+/-- one serial order (a permutation of the request indices): the final view and the answer of every request,
+put back at the request's own index -/
+def serialOutcome (base : World) (v : View) (reqs : List Req) (order : List Nat) : String × List String :=
+  let rs := order.filterMap (fun i => reqs[i]?)
+  let out := serialRunResp base v rs
+  let pairs := order.zip (out.2.map renderResp)
+  (renderView out.1, (List.range reqs.length).map fun i => ((pairs.find? (·.1 == i)).map (·.2)).getD "?")
+
 /-- canonical texts of the views the requests can produce one at a time, in any order -/
 def serialOutcomes (base : World) (v : View) (reqs : List Req) : List String :=
   ((perms reqs).map fun p => renderView (serialRun base v p)).eraseDups
@@ -142,7 +161,10 @@ def step (st : St) (op impl : String) : St × Verdict :=
     | none => (st, .bad)
     | some reqs =>
       if reqs.length > 5 then (st, .bad) else
-      match parseView impl with
+      let (viewText, respWords) := match impl.splitOn " ## " with
+        | [a, b] => (a, words b)
+        | _ => (impl, [])
+      match parseView viewText with
       | none =>
         -- no final view: the round did not end, or the process died
         if impl == "hang" then (st, .propfail "no-deadlock")
@@ -153,11 +175,24 @@ def step (st : St) (op impl : String) : St × Verdict :=
         let st' := { st with view := vi }
         let wids : List Nat := vi.map (·.1)
         if wids.eraseDups.length != wids.length then (st', .propfail "one-world-per-id") else
-        if (serialOutcomes st.base st.view reqs).contains got then (st', .ok)
-        else if conflictFree reqs then (st', .propfail "serializable")
+        if respWords.length != reqs.length then (st', .bad) else
+        let outcomes := (perms (List.range reqs.length)).map (serialOutcome st.base st.view reqs)
+        -- one serial order must explain the final worlds AND every response
+        if outcomes.any (fun o => o.1 == got && o.2 == respWords) then (st', .ok)
+        else if conflictFree reqs then
+          if outcomes.any (fun o => o.1 == got) then (st', .propfail "serializable-responses")
+          else (st', .propfail "serializable")
         else if reqs.length ≤ 3 && (modelOutcomes st.base st.view reqs).contains got then
           (st', .propfail "serializable class=write-skew")
         else (st', .propfail "serializable-and-not-explained-by-the-model")
+  | "round-addworld" :: _ =>
+    -- rounds containing add-world-with-change (not a client of the model: it deletes, re-creates and writes a
+    -- world inside the read phase): only the absence of a race report / crash is asked for
+    if impl == "race" then (st, .propfail "data-race class=add-world-under-read-lock")
+    else if impl == "hang" then (st, .propfail "no-deadlock")
+    else match parseView ((impl.splitOn " ## ").headD impl) with
+      | some vi => ({ st with view := vi }, .ok)
+      | none => (st, .propfail ("crash:" ++ impl))
   | _ => (st, .bad)
 
 def family : Family := { σ := St, init := {}, step := step }
